@@ -21,6 +21,9 @@ CHECKS = {
  'C18': dict(engine='gev-c18', technique='bounded-exhaustive enumeration of import paths x spellings x condition combinations x positions; token-level expected output with an independent percent-decoder',
    text='Every path over an 18-symbol alphabet (quotes, backslash, */ ingredients, %, hex digits, blank, newline, non-ASCII, astral, parentheses, semicolon) up to length 2 (quick) / 3 (thorough) in the four spellings "…", \'…\', url(…), url("…"), with every combination of layer() / supports() / 4 media conditions at 7 positions, with and without an import sign, with and without a following rule; longer paths (3 / 4) with a reduced condition set. With a sign: exactly one placeholder comment whose percent-decoding is the path, wrapped in @layer / @supports / @media blocks token-equal to the conditions, balanced, at the import position; imports after a rule or block are flagged, the first is not. Without a sign: token-equal pass-through.',
    note='Trusted: cssparser tokenizer (denotation of a spelling; output tokens). Not asserted: the bare `layer` keyword, whether a second consecutive import is flagged, imports nested in blocks.', ref='4/C18'),
+ 'C19': dict(engine='gev-c19', technique='bounded-exhaustive exploration of multi-line / multi-byte stylesheets and :host rule trees; per-output-token source-map oracle derived from the model positions',
+   text='C08 selector sheets (depth <= 1 quick / 2 thorough, wrapper chains <= 1) and all value-token pairs in 7 contexts, plain and with an astral comment line in front and multi-byte class names / strings, plus four line-breaking / multi-byte fillers (\\n, /*e-acute astral*/, \\r\\n, blank + multi-line comment + newline) at every gap; C17 rule trees (8 leaf kinds, depth <= 1) under every conversion option set, on one line and one rule per line. Every output token written through the token path must have a map entry at its real UTF-16 column whose source line / column is the start of its input token (closing bracket: own or opener; sign comment: the class it marks; synthesised [wx-host] tokens: inside the :host rule prelude), rewritten tokens carry the original spelling as name, entries are sorted, and the map is identical after JSON serialisation. Replayed wrappers of the low-priority output are exempt.',
+   note='Trusted: cssparser tokenizer for output token boundaries, the sourcemap crate for decoding. Sheets whose token streams disagree with the reference rewrite are left to C08 / C17 and counted as skipped.', ref='4/C19'),
 }
 
 NOT_YET = {}
